@@ -5,6 +5,7 @@ import TakVerif.Proofs.PTNRender
 import TakVerif.Proofs.PTNScan
 import TakVerif.Proofs.PTNNec
 import TakVerif.Proofs.PTNRealSafe
+import TakVerif.Proofs.ScannerRefine
 import TakVerif.Proofs.PTNLink
 
 /-! C12: PTN files — positional lookup (`Iterator`, `PositionAtMove`) and render/parse.
@@ -165,6 +166,19 @@ harness evaluates a Go transcription of it beside the real round trip):
   starting with `{` / `[`, not ending in `.` or `?!'`, no white space, not a result string) that `ParseMove`
   reads back as the same move.  This speaks about the two functions, not about the data;
   `moveSafe_real` discharges it for the byte-level models of the real functions on every move of legal shape. -/
+
+/-- **The window model of `bufio.Scanner` is not an assumption.**  `readMovesScanner` (`Proofs/ScannerRefine.lean`)
+is `readMoves` with `bufio.Scanner.Scan` inlined as the standard library writes it: a buffer that starts empty,
+becomes 4096 bytes and doubles up to `MaxScanTokenSize`; reads that deliver any number of bytes ≥ 1 that fit
+(`chunk`, arbitrary); the split function called on whatever is held, with `atEOF` only after a read has returned
+`io.EOF`; `ErrTooLong` when the buffer is full at its maximal size.  For every input and every sequence of read
+sizes it returns what the window model returns, so `ParsePTN` over it is `parsePTN` — every theorem of this
+section holds for it unchanged. -/
+theorem scanner_window_model (env : Env) (chunk : Nat → Nat) :
+    (∀ rest, readMovesScanner env chunk (2 * rest.length + 2) 0 (ScanState.init rest) =
+      readMoves env (rest.length + 1) rest) ∧
+    (∀ input, parsePTNScanner env chunk input = parsePTN env input) :=
+  ⟨readMovesScanner_init env chunk, parsePTNScanner_eq env chunk⟩
 
 /-- **Byte level: render then parse gives the value back exactly when the value is `dataSafe`.**
 For a file whose moves are `moveSafe`: `ParsePTN (Render p)` succeeds with the same tags and the same ops
@@ -479,6 +493,16 @@ a flat placement; a slide without drops: read back with one drop), a slide of le
 example : moveSafe (realEnv #[]) ⟨8, 0, Facts.mtPlaceFlat, 0#32⟩ = false ∧ moveSafe (realEnv #[]) ⟨0, 0, 0, 0#32⟩ = false ∧
     moveSafe (realEnv #[]) ⟨1, 1, Facts.mtSlideLeft, 0#32⟩ = false ∧
     moveSafe (realEnv #[]) ⟨1, 1, Facts.mtSlideLeft, 0x1#32⟩ = true := by decide
+
+/-- the spelled-out scanner on a small input, read one byte at a time and read in one piece:
+two moves, a comment, a move number -/
+example :
+    (readMovesScanner exEnv (fun _ => 1) 60 0 (ScanState.init (str " a1 b2? {x y}\n2."))).toOption.map (·.map Op.clearSrc) =
+      some [.move [] ⟨0, 0, Facts.mtPlaceFlat, 0#32⟩ [], .move [] ⟨1, 1, Facts.mtPlaceFlat, 0#32⟩ [63],
+            .comment [] (str "x y"), .moveNumber [] 2] ∧
+    (readMovesScanner exEnv (fun _ => 4096) 60 0 (ScanState.init (str " a1 b2? {x y}\n2."))).toOption.map (·.map Op.clearSrc) =
+      some [.move [] ⟨0, 0, Facts.mtPlaceFlat, 0#32⟩ [], .move [] ⟨1, 1, Facts.mtPlaceFlat, 0#32⟩ [63],
+            .comment [] (str "x y"), .moveNumber [] 2] := by decide
 
 /-- `[N "x"y"]`: the value `x"y` is what `ParsePTN` returns, and `Render` writes it as `"xy"` -/
 theorem render_parse_bytes_statement_false : ¬ render_parse_bytes_statement exEnv := by
